@@ -106,6 +106,28 @@ def check(ctx, m, cfg, functions=None):
                         bad = (r_, f.blocks[b].term)
                     else:
                         vals.add(sv)
+            # an answer carried round the loop (`contains` updated per hole) may only move towards the deciding constant: the value on the back edge is
+            # the old value, a constant, or a combination that keeps the old value (and / or / select with it) - never a function of this hole alone
+            carried = None
+            for p_ in f.blocks[h].phis():
+                if p_.type not in ("i1", "i8", "i32") or not _feeds_return(f, p_.id, body):
+                    continue
+                if all(_strip_eq(f, o, p_.id) or pb not in body for o, pb in zip(p_.ops, p_.d["inc"])):
+                    continue            # never changed inside the loop
+                ab = _absorbing(f, h, body, p_)
+                if ab is None:
+                    carried = carried or (p_, None)
+                elif not ab:
+                    carried = (p_, "x")
+            if carried is not None and carried[1] is not None:
+                p_ = carried[0]
+                w = f.blocks[h].term.where()
+                ctx.violation(RULE, "qloop:%s:carried" % f.name, "%s updates the answer it returns after the loop over the polygon's holes in a way that has no absorbing value: whatever "
+                              "an earlier hole decided can be undone by a later one (only the last hole counts)" % f.name, w, inst)
+                continue
+            if carried is not None:
+                ctx.broken(RULE, "%s: the answer carried round the hole loop is updated in a form the rule cannot read" % f.name)
+                continue
             if bad is not None:
                 ctx.violation(RULE, "qloop:%s" % f.name, "%s leaves its loop over the polygon's holes from inside the body (%s) with a return value that is not a constant: the answer for "
                               "all holes is given after looking at one" % (f.name, bad[1].where()), bad[1].where(), inst)
@@ -117,3 +139,58 @@ def check(ctx, m, cfg, functions=None):
                     continue
                 ctx.ok(RULE, inst, "%d early exit(s) from the hole loop, all returning the constant %s; the other answer is only given after the loop" % (len(exits), sorted(vals)[0] if vals else "-"))
     return n
+
+
+def _feeds_return(f, pid, body, depth=0):
+    """the loop-carried value (or a cast / phi / select copy of it outside the loop) is returned"""
+    seen, todo = set(), [pid]
+    while todo:
+        x = todo.pop()
+        if x in seen:
+            continue
+        seen.add(x)
+        for u in f.users(("i", x)):
+            if u.op == "ret":
+                return True
+            if u.op in ("phi", "select", "zext", "trunc", "sext", "freeze", "and", "or", "xor", "icmp") and len(seen) < 40:
+                todo.append(u.id)
+    return False
+
+
+def _strip_eq(f, o, pid):
+    while o[0] == "i" and f.insts[o[1]].op in ("zext", "trunc", "sext", "freeze"):
+        o = f.insts[o[1]].ops[0]
+    return o[0] == "i" and o[1] == pid
+
+
+def _absorbing(f, h, body, phi):
+    """the constants c such that  old answer == c  implies  new answer == c  on every path round the loop (explored with the old answer fixed, the
+    tests of the current hole unknown); None if a back edge cannot be evaluated"""
+    w = int(phi.type[1:])
+    back = [(o, pb) for o, pb in zip(phi.ops, phi.d["inc"]) if pb in body]
+    lastof = {}
+    for o, pb in back:
+        ins = [x for x in f.blocks[pb].insts if x.op != "phi" and x is not f.blocks[pb].term]
+        if not ins:
+            return None
+        lastof[ins[-1].id] = o
+    out = set()
+    for c in (0, 1):
+        seen = []
+
+        class P:
+            def on_inst(self, ex, s, i):
+                if i.block.idx not in body:
+                    return []
+                if i.block.idx == h and len(s.trail) > 1:
+                    return []
+                if i.id in lastof:
+                    seen.append(ex.eval(lastof[i.id], s.env))
+                return None
+        ex = Explorer(f, assume={("i", phi.id): explore.const(c, w)}, plugin=P(), start_block=h)
+        ex.run()
+        if not seen:
+            return None
+        if all(av is not None and av[0] == "int" and explore.singleton(av) == c for av in seen):
+            out.add(c)
+    return out
